@@ -1,1 +1,94 @@
-import BigtreeModel.Basic
+import BigtreeModel.Relation
+import BigtreeProofs.Lemmas.Heap
+import BigtreeProofs.Lemmas.Nested
+/-!
+# C13 — relation, nested-dict and heap-list constructors build exactly the given edges
+-/
+open Paths
+
+namespace C13
+
+/-! ## list_to_binarytree -/
+
+/-- A non-empty list is never refused, and `node_list` ends up heap-shaped: slot `p` holds
+    `xs[p]` and points to `2p+1` / `2p+2` exactly when these positions exist. -/
+theorem heap_store (xs : List Int) (h : xs ≠ []) :
+    Heap.listToStore xs = .ok (Heap.specStore xs) := Heap.listToStore_eq xs h
+
+/-- The element at position `i ≥ 1` is the child of the element at position `(i-1)/2`
+    (which is what the Python index expression computes), in the left slot for odd `i`, in the
+    right slot for even `i`; and no other slot points to it. -/
+theorem heap_parent (xs : List Int) (st : List Heap.Slot) (h : Heap.listToStore xs = .ok st)
+    (i : Nat) (h1 : 1 ≤ i) (hi : i < xs.length) :
+    Heap.parentIdx i = (i - 1) / 2 ∧
+    (∃ s, st[(i - 1) / 2]? = some s ∧ xs[(i - 1) / 2]? = some s.val ∧
+      (if i % 2 = 1 then s.left = some i else s.right = some i)) ∧
+    (∀ p s, st[p]? = some s → (s.left = some i ∨ s.right = some i) → p = (i - 1) / 2) := by
+  have hne : xs ≠ [] := by intro e; subst e; simp at hi
+  rw [heap_store xs hne] at h
+  cases h
+  refine ⟨by unfold Heap.parentIdx; omega, ?_, ?_⟩
+  · have hp : (i - 1) / 2 < xs.length := by omega
+    refine ⟨Heap.slotOf xs.length ((i - 1) / 2) xs[(i - 1) / 2], ?_, ?_, ?_⟩
+    · rw [Heap.specStore_get, List.getElem?_eq_getElem hp]; rfl
+    · rw [List.getElem?_eq_getElem hp]; rfl
+    · simp only [Heap.slotOf]
+      split
+      · rw [if_pos (by omega)]; congr 1; omega
+      · rw [if_pos (by omega)]; congr 1; omega
+  · intro p s hs hor
+    rw [Heap.specStore_get] at hs
+    cases hx : xs[p]? with
+    | none => rw [hx] at hs; cases hs
+    | some v =>
+      rw [hx] at hs
+      simp only [Option.map, Option.some.injEq] at hs
+      subst hs
+      simp only [Heap.slotOf] at hor
+      rcases hor with hor | hor
+      · split at hor
+        · cases hor; omega
+        · cases hor
+      · split at hor
+        · cases hor; omega
+        · cases hor
+
+example : Heap.listToStore [5, 3, 8, 1] =
+    .ok [⟨5, some 1, some 2⟩, ⟨3, some 3, none⟩, ⟨8, none, none⟩, ⟨1, none, none⟩] := by rfl
+
+/-- The returned tree is the heap-shaped tree read directly off the list. -/
+theorem heap_tree (xs : List Int) (h : xs ≠ []) :
+    Heap.listToBinary xs = .ok (Heap.heapTree xs xs.length 0) := by
+  unfold Heap.listToBinary
+  rw [heap_store xs h]
+  simp only [Heap.specStore_length, Heap.readBack_spec]
+
+example : Heap.listToBinary [1, 2, 3, 4] = .ok
+    (.node 0 ['1'] [] (.node 1 ['2'] [] (.node 3 ['4'] [] .nil .nil) .nil) (.node 2 ['3'] [] .nil .nil)) := by
+  rw [heap_tree _ (by simp)]; simp [Heap.heapTree]; decide
+
+/-- An empty list is refused with `ValueError`. -/
+theorem heap_empty_refused : Heap.listToBinary [] = .error .value := rfl
+
+/-! ## nested_dict_to_tree -/
+
+/-- The tree mirrors the nesting exactly: reading the result back as a nested dictionary
+    (names, attributes, children in order) gives the input. -/
+theorem nested_mirror (d : NDict) (t : Tree) (h : d.toTree = .ok t) : NDict.ofTree t = d :=
+  NDict.toTree_mirror d t h
+
+/-- A nested dictionary is accepted exactly when its names are non-empty and sibling names
+    are pairwise different (what a `Node` tree can represent). -/
+theorem nested_accepted_iff (d : NDict) : (∃ t, d.toTree = .ok t) ↔ NDict.WF d :=
+  ⟨fun ⟨t, h⟩ => NDict.toTree_wf d t h, NDict.toTree_accepts d⟩
+
+example : (NDict.mk ['a'] [(['v'], .int 1)] [.mk ['b'] [] [.mk ['a'] [] []], .mk ['c'] [] []]).toTree =
+    .ok (.node 0 ['a'] [(['v'], .int 1)] [.node 0 ['b'] [] [.node 0 ['a'] [] []], .node 0 ['c'] [] []]) := by
+  rfl
+
+example : NDict.WF (.mk ['a'] [] [.mk ['b'] [] [], .mk ['c'] [] []]) := by
+  simp [NDict.WF, NDict.WFL, NDict.name]
+
+example : (NDict.mk ['a'] [] [.mk ['b'] [] [], .mk ['b'] [] []]).toTree = .error .tree := by rfl
+
+end C13
